@@ -32,6 +32,8 @@ LEVEL_TEXT = ("Coq theorems about the token-level Gallina model coq/Model/Exchan
 LEVEL_NOTE = ("Trusted: Coq 8.16.1 kernel incl. vm_compute; standard-library real-number axioms as printed by Print Assumptions; the "
               "hand-written model's fidelity is sampled by the correspondence check (real files, 1e-9 tolerance); Python's json, "
               "str(float), float(), '{:.18f}', file I/O and os.listdir ordering are modelled, not verified.")
+# functions of the numerical core this property rests on that are also tied by the translator (tie theorems: Proofs/GenTie*.v, restated in Props/)
+TRANSLATED = ["compatibility.flip_ctrlpts_u", "compatibility.flip_ctrlpts", "compatibility.generate_ctrlptsw", "compatibility.generate_ctrlptsw2d", "compatibility.generate_ctrlpts_weights", "compatibility.generate_ctrlpts2d_weights"]
 TECHNIQUE = "machine-checked proof in Coq over a hand-written token-level Gallina model + correspondence check on real exported files evaluated by coqc"
 
 WORK = os.path.join(VERIF, "work")
